@@ -95,7 +95,8 @@ def generate(rng):
         if k == "change_cost":
             # the user changes a cost rate between two evaluations (cost-sensitivity sweep): stock.cost = x / re-list
             tgt = rng.choice([i for i in (hedge or ["p0"])])
-            ops.append({"op": "change_cost", "target": tgt, "cost": rng.choice([0.0, 1e-4, 2e-3, 0.01, 0.05])})
+            ops.append({"op": "change_cost", "target": tgt, "cost": rng.choice([0.0, 1e-4, 2e-3, 0.01, 0.05]),
+                        "pricer": rng.choice([None, "affine:0.5:1.0", "sq:0.25"])})
             continue
         if k == "hedger_pl":
             which = rng.wchoice([("pl", 4), ("portfolio", 3), ("pnl", 1)])
@@ -275,7 +276,8 @@ def _execute(program, stats, hist):
             else:
                 from ..world import make_pricer
                 spec_l = world.spec_of("derivatives", op["target"])
-                inst.list(make_pricer(spec_l["listed"]["pricer"]), cost=op["cost"])
+                # re-listing, sometimes with another pricing rule as well: the P&L must use the instrument's current quotes
+                inst.list(make_pricer(op.get("pricer") or spec_l["listed"]["pricer"]), cost=op["cost"])
             stats.probe("cost_changed_between_calls")
             hist.add(op="change_cost", target=op["target"], cost=op["cost"])
         elif name == "hedger_pl":
